@@ -266,9 +266,18 @@ func Run(sc *Scenario, o RunOpts) *RunResult {
 			if pr.SubmitErr != nil {
 				continue
 			}
-			err := ws.Start(ctx, pr.ID)
+			sctx, cancelStart := stdctx.WithCancel(ctx)
+			err := ws.Start(sctx, pr.ID)
 			l.api(EvStartRet, pi, err)
 			pr.StartErr = err
+			switch {
+			case sc.CancelStartUs < 0:
+				cancelStart()
+			case sc.CancelStartUs > 0:
+				time.AfterFunc(time.Duration(sc.CancelStartUs)*time.Microsecond, cancelStart)
+			default:
+				defer cancelStart()
+			}
 		}
 	}
 
